@@ -63,6 +63,18 @@ CLAIMED.update({
    text=STRUCT_TXT % "the six counting estimators match the template length-check / full-range loop / count of equal same-index pairs / count over length, aliases are pure delegations, every panic edge of the estimators is a precondition, machine-discharged or individually argued, and the MLE optimiser's start value is clamped into a bracket within [0,1]",
    technique="template matching and sibling comparison over rustc HIR, panic-edge inventory on MIR, clamp-chain rule against the external solver's contract",
    ref="DESIGN.md §4 C14"),
+ "C01": dict(category="other",
+   text="Decides ONLY structural preconditions anchored in the property's mechanisms; the statement itself is an expectation over hash randomness and is NOT decided (no static argument in reach can bound it). " + "Preconditions: a common item replays the same race (seed provenance, fresh digest), registers are guarded minima paired with their item, pruning only discards points that cannot win (exit classification, tracker accessor/step shapes), 3/3a/3aSha draw in the same order and bands, variant 2's slots come from a per-item reset permutation, the rate of the truncated exponential and the increment tables betas/g agree across sibling implementations (exact rational evaluation), the estimator is matches/m.",
+   technique="custom static analysis over rustc HIR/MIR (slicing, CFG x DFA product, control dependence, sibling agreement with exact rational evaluation of table definitions, template matching)",
+   ref="DESIGN.md §4 C01 / §8"),
+ "C03": dict(category="other",
+   text="Decides ONLY structural preconditions anchored in the property's mechanisms; the statement itself is an expectation over hash randomness and is NOT decided (no static argument in reach can bound it). " + "Preconditions: per-item generator seeded from the item hash, the j-th draw assigns Uniform[0,1)+j to the j-th element of a per-item permutation built by a Fisher-Yates step k ~ Uniform[j,m) (SuperMinHash2: next element of a verified-reset FYshuffle), histogram/a_upper bookkeeping follows every register move, registers are guarded minima, exactly-once item_rank increment and marker discipline, the estimators are matches/m.",
+   technique="custom static analysis over rustc HIR (guard matching, shape rules on resolved normal forms, loop-exit classification, RESET analysis, template matching)",
+   ref="DESIGN.md §4 C03 / §8"),
+ "C08": dict(category="other",
+   text="Decides ONLY structural preconditions anchored in the property's mechanisms; the statement itself is an expectation over hash randomness and is NOT decided (no static argument in reach can bound it). " + "Preconditions: item -> (value, bin) from a generator seeded by the item hash, a bin keeps the smallest value with its hash under an order-insensitive guard, densification copies (value, hash) pairs from populated bins into empty bins only with generators keyed by position/size/pass/constants, bookkeeping of init/nb_empty, empty-stream guard.",
+   technique="custom static analysis over rustc HIR (control dependence on occupancy flags, pairing, slicing, dominating-guard rule)",
+   ref="DESIGN.md §4 C08 / §8"),
  "C15": dict(category="other",
    text="Decides ONLY structural clauses of the tracker (the inductive invariant over all update sequences is not proved): accessor shapes (maximum = root node, strict comparison), the shape of one propagation step of update (leaf written only if strictly smaller; parent m + k/2 receives max(child, sibling k ^ 1); the walk ends only at the root, when the parent equals both children, or when it would not decrease), the 2m-1 node layout, and reset == new.",
    technique="shape rules over rustc HIR (definitions, control dependence, loop-exit classification of the update step) and the RESET field-effect analysis",
@@ -82,9 +94,6 @@ CLAIMED.update({
 })
 
 NA = {
- "C01": "expectation / mean-squared-error over hash randomness: the truth lies in numeric rate constants, not in the shape of the code; its structural preconditions are decided under C02, C12, C14",
- "C03": "expectation and variance over hash randomness and a uniform-permutation law; structural preconditions are decided under C04 and C14",
- "C08": "expectation over hash randomness at every fill ratio; its anchored mechanisms are clauses of C04 and C09 and are decided there",
  "C16": "a distribution law; even the range clause [0,1) needs reasoning about transcendental constants that no static domain in reach provides",
 }
 
